@@ -51,7 +51,7 @@ ARENAS = {
     "promo_clock_b": ("4k3/8/8/8/8/8/p7/1N2K3 b - - 96 60", 5, 6),
     # an unmoved rook captured on its home square while the right is held (by a bishop / by a promoting pawn),
     # then king shuffles: the position right after the capture recurs after the first king move
-    "home_rook_captured_w": ("4k2r/8/8/8/8/8/1B6/4K3 w k - 0 1", 6, 6),
+    "home_rook_captured_w": ("4k2r/8/8/8/8/8/1B6/4K3 w k - 0 1", 6, 7),
     "home_rook_captured_b": ("4k3/8/8/8/8/8/1p6/R3K3 b Q - 0 1", 6, 6),
 }
 
